@@ -15,8 +15,8 @@ from ..gen import prob
 
 ID = "C19"
 LEVEL = "exploration"
-BUDGET = {"quick": 4000, "thorough": 60000}
-SHARDS = {"quick": 8, "thorough": 16}
+BUDGET = {"quick": 8000, "thorough": 60000}
+SHARDS = {"quick": 16, "thorough": 16}
 RULE = (
     "Domain A (flaw injection): Hypothesis-generated valid graphs (gate-free and control-flow programs, optionally with the flaw "
     "site inside a nested graph) x ONE flaw from the catalogue at EVERY applicable position: unknown gate target in each slot of "
